@@ -16,7 +16,7 @@ R-STATFIRST    emit_diff_stats is called before any section, and show_stats_only
 """
 import re
 
-from engine.cfg import forward, state_before, TOP, strip_casts
+from engine.cfg import forward, state_before, TOP, strip_casts, EnumConsts
 from engine.facts import walk, call_args, member_call_object, expr_str
 from engine.compdb import AnalysisBroken
 from rules import atoms as at
@@ -95,6 +95,7 @@ def _field(f, n):
 def application_rows(f):
     """[(loop, iterated field, predicate name, enumerator name or None, stored field)]"""
     rows = []
+    consts = None
     for loop in f.nodes():
         if loop["k"] != "ForStmt":
             continue
@@ -116,6 +117,14 @@ def application_rows(f):
                         a0 = strip_casts(a)
                         if a0 is not None and a0["k"] == "DeclRefExpr" and (f.decl(a0) or {}).get("k") == "EnumConstant":
                             enum = f.decl(a0)["n"]
+                        elif a0 is not None and a0["k"] == "DeclRefExpr" and (f.decl(a0) or {}).get("st") == "local" \
+                                and "change_kind" in (f.type(a0) or {}).get("c", ""):
+                            # the kind is passed through a local: take the enumerators that reach this use
+                            if consts is None:
+                                consts = EnumConsts(f).solve()
+                            vals = consts.values(a0)
+                            enum = next(iter(vals)) if len(vals) == 1 and "?" not in vals else \
+                                "{%s}" % ", ".join(sorted(vals))
             if x["k"] in ("CXXOperatorCallExpr", "BinaryOperator") and x.get("op") == "=":
                 l = strip_casts(x["c"][1] if x["k"] == "CXXOperatorCallExpr" else x["c"][0])
                 if l is not None and l["k"] == "CXXOperatorCallExpr" and l.get("op") == "[]":
@@ -140,7 +149,9 @@ def check_chgkind_b(ctx, P):
         if store != "suppressed_" + K:
             problems.append("stores into %s instead of suppressed_%s" % (store, K))
         direction = "ADDED" if K.startswith("added_") else "DELETED" if K.startswith("deleted_") else None
-        if enum is not None:
+        if enum is not None and enum.startswith("{"):
+            problems.append("the kind is passed through a local that may hold %s here" % enum)
+        elif enum is not None:
             if direction and direction not in enum:
                 problems.append("passes %s for the %s container" % (enum, K))
             dom = "FUNCTION" if "fn" in K else "VARIABLE" if "var" in K else None
